@@ -27,9 +27,15 @@ BadLits == {Lit(VNeg(<<1>>), "-1"), Lit(VNum(<<1>>), "1.9"), Lit(VNum(<<0>>), "-
             Lit(VNull, "null"), Lit(VObj, "{}")}
          \cup (IF Rich THEN {Lit(VBool, "true"), Lit(VNum(NatBits(255)), "255.9"), Lit(VNum(NatBits(256)), "256.5"),
                              Lit(VNeg(<<1>>), "-1.5")} ELSE {})
-Atoms   == StrLits \cup IntLits \cup BigLits \cup BadLits
+\* numbers that reach the conversion as big integers (everything read out of a binary is one) after arithmetic: the byte-range boundary
+\* from both sides, negative ones included (an int literal takes another path through the member check than a big integer does)
+ByteOfA == "(\"a\"|tobytes|.[0])"                                        \* 97 as a big integer
+ComputedLits == {Lit(VNat(2), "(" \o ByteOfA \o " - 95)"), Lit(VNat(255), "(" \o ByteOfA \o " + 158)"), Lit(VNat(256), "(" \o ByteOfA \o " + 159)"),
+                 Lit(VNeg(<<1, 1>>), "(" \o ByteOfA \o " - 100)"), Lit(VNeg(NatBits(255)), "(" \o ByteOfA \o " - 352)"),
+                 Lit(VNeg(NatBits(256)), "(" \o ByteOfA \o " - 353)")}
+Atoms   == StrLits \cup IntLits \cup BigLits \cup BadLits \cup ComputedLits
 \* members of literal arrays: the byte-range boundary, strings, one value of each rejected kind
-Members == StrLits \cup IntLits \cup BadLits \cup (IF Rich THEN BigLits ELSE {})
+Members == StrLits \cup IntLits \cup BadLits \cup ComputedLits \cup (IF Rich THEN BigLits ELSE {})
 ArrLits == UNION {{ArrE(s) : s \in [1 .. n -> Members]} : n \in 0 .. ArrLen}
          \cup {ArrE(<<ArrE(<<Lit(VNat(1), "1"), Lit(VStr(<<97>>), "\"a\"")>>), Lit(VNat(5), "5")>>),
                ArrE(<<ArrE(<<>>), ArrE(<<ArrE(<<Lit(VNat(255), "255")>>)>>)>>),
